@@ -42,4 +42,6 @@ ShapesAll      == ShapesSmall1 \cup ShapesSmall2 \cup ShapesShuf2 \cup {Diamond(
 Pair(R) == [tasks |-> {"a","b"}, phase |-> Self({"a","b"}),
             deps |-> [t \in {"a","b"} |-> IF t = "a" THEN <<"b">> ELSE <<>>], roots |-> R]
 ShapesLossy == {Pair(One(<<"a">>)), Pair(Two(<<"a">>, <<"a">>))}
+\* liveness (Terminates under FairSpec): one evaluation of a chain, a diamond and a 2x2 shuffle
+ShapesLive == ShapesChain1 \cup ShapesDiamond1 \cup {Shuf(One(<<"c1","c2">>))}
 ====
